@@ -688,6 +688,48 @@ func c03Entries(c *Ctx) {
 	r.Check(got["allowed"] && got["blocked"], "C03-D5", "lists-built-from-configuration", p.FnPos(na),
 		"the allowed and the disallowed collections are filled from the respective configured lists", "the allowed/disallowed collections are not filled from the respective configured lists")
 
+	// the exact-address set is probed with the address as it came in: the keys are the parsed addresses, zone included
+	{
+		probeFns := []*ssa.Function{}
+		if ibf := p.Fn("(*dnsforward.accessManager).isBlockedIP"); ibf != nil {
+			probeFns = append(probeFns, ibf)
+			for h := range core.StaticReach(ibf, 2) {
+				if h != ibf && core.PkgOf(h) == "dnsforward" {
+					probeFns = append(probeFns, h)
+				}
+			}
+		}
+		nProbe := 0
+		var badProbe []string
+		stop := func(v ssa.Value) string {
+			if call, ok := v.(*ssa.Call); ok {
+				k := core.CalleeKey(call.Common())
+				if strings.HasSuffix(k, "netip.Addr).WithZone") || strings.HasSuffix(k, "netip.Addr).Unmap") || strings.HasSuffix(k, "netip.Addr).Prev") || strings.HasSuffix(k, "netip.Addr).Next") {
+					return k
+				}
+			}
+			return ""
+		}
+		for _, pf := range probeFns {
+			for _, call := range core.Calls(pf) {
+				if !strings.Contains(call.Key, "container.MapSet") || !strings.HasSuffix(call.Key, ".Has") || len(call.Common.Args) != 2 {
+					continue
+				}
+				if !strings.Contains(call.Arg(1).Type().String(), "netip.Addr") {
+					continue
+				}
+				nProbe++
+				for _, o := range core.Origins(call.Arg(1), core.ProvOpts{Prog: p, Stop: stop, InterprocDepth: 2}) {
+					if o.Kind == "stop" {
+						badProbe = append(badProbe, fmt.Sprintf("%s at %s probes the set with %s of the client address", core.FuncKey(pf), p.InstrPos(call.Instr), o.Key))
+					}
+				}
+			}
+		}
+		r.Check(nProbe > 0 && len(badProbe) == 0, "C03-D5", "address-set-probed-with-address-as-given", "-",
+			"the exact-address set is probed with the client address unchanged (its keys are the parsed entries, zone included)",
+			"the exact-address set is probed with a transformed address, but its keys are the entries as parsed: a listed zoned address no longer matches", badProbe...)
+	}
 	// the address check tests every stored network
 	ib := p.Fn("(*dnsforward.accessManager).isBlockedIP")
 	if ib == nil {
